@@ -52,15 +52,20 @@ def main():
     cli.add_argument("--tier", default="quick")
     cli.add_argument("--needs", default="")
     cli.add_argument("--no-store", action="store_true")
+    cli.add_argument("--base", default="HEAD", help="commit of /repo the patch is applied to")
+    cli.add_argument("--seed-tree", help="the author's own worktree; demonstrations that "
+                     "hard-code their import path are run there (patch applied / removed)")
     options = cli.parse_args()
     checks = (options.checks or options.property).split(",")
     tree = "/root/scratch/seedrun-%s" % options.name
     sh("git -C %s worktree remove --force %s" % (REPO, tree))
-    code, out, _ = sh("git -C %s worktree add --detach %s HEAD" % (REPO, tree))
+    code, out, _ = sh("git -C %s worktree add --detach %s %s" % (REPO, tree, options.base))
     if code:
         sys.exit("cannot create worktree: %s" % out)
     meta = {"name": options.name, "property": options.property,
-            "needs_to_manifest": options.needs, "ran": []}
+            "needs_to_manifest": options.needs, "ran": [],
+            "applied_to": subprocess.check_output(
+                ["git", "-C", REPO, "rev-parse", "--short", options.base], text=True).strip()}
     try:
         code, out, _ = sh("git -C %s apply %s" % (tree, os.path.abspath(options.patch)))
         if code:
@@ -73,12 +78,24 @@ def main():
         meta["ran"].append("cd <worktree> && PYTHONPATH=<worktree>/src /venv/bin/python -m "
                            "pytest -q -p no:cacheprovider  ->  %s" % summary)
         tests_pass = " passed" in summary and "failed" not in summary and "error" not in summary
-        code_with, out_with, _ = sh("/venv/bin/python %s" % os.path.abspath(options.demo),
-                                    env=env, cwd=tree, timeout=600)
-        code_without, out_without, _ = sh("/venv/bin/python %s" % os.path.abspath(options.demo),
-                                          env={"PYTHONPATH": REPO + "/src",
-                                               "COBALD_SRC": REPO + "/src"}, cwd=REPO,
-                                          timeout=600)
+        demo = os.path.abspath(options.demo)
+        if options.seed_tree:
+            seed = options.seed_tree
+            seed_env = {"PYTHONPATH": seed + "/src", "COBALD_SRC": seed + "/src"}
+            sh("git -C %s checkout -- ." % seed)
+            sh("git -C %s apply %s" % (seed, os.path.abspath(options.patch)))
+            code_with, out_with, _ = sh("/venv/bin/python %s" % demo, env=seed_env, cwd=seed,
+                                        timeout=600)
+            sh("git -C %s checkout -- ." % seed)
+            code_without, out_without, _ = sh("/venv/bin/python %s" % demo, env=seed_env,
+                                              cwd=seed, timeout=600)
+        else:
+            code_with, out_with, _ = sh("/venv/bin/python %s" % demo, env=env, cwd=tree,
+                                        timeout=600)
+            code_without, out_without, _ = sh(
+                "/venv/bin/python %s" % demo,
+                env={"PYTHONPATH": REPO + "/src", "COBALD_SRC": REPO + "/src"}, cwd=REPO,
+                timeout=600)
         meta["demo_with_change_exit"] = code_with
         meta["demo_without_change_exit"] = code_without
         meta["ran"].append("demo with the change: exit %d; without: exit %d"
